@@ -52,14 +52,28 @@ pub fn assemble_from_string(source: &str) -> Result<(Vec<Function>, Heap)> {
     assemble(source)
 }
 
+/// Same bound as the bytecode verifier and the .avbc reader.
+const MAX_FUNCTION_NESTING: usize = 64;
+
 /// The disassembler lists functions in pre-order and `func @N` constants are relative to the
 /// enclosing function, so with the `.nested` counts the tree can be put back together:
 /// each function takes the next `count` subtrees as its nested functions. Iterative, so a
 /// long `.nested 1` chain cannot exhaust the native stack. Functions left over (counts that
 /// do not add up) are attached to the root, which is what happened to every function before.
-fn rebuild_hierarchy(functions: Vec<Function>, counts: &[Option<usize>]) -> Function {
+fn rebuild_hierarchy(functions: Vec<Function>, counts: &[Option<usize>]) -> Result<Function> {
     let mut stack: Vec<(Function, usize)> = Vec::new();
     for (func, count) in functions.into_iter().zip(counts.iter()) {
+        // the tree is walked recursively by everything downstream (loader, verifier, drop):
+        // refuse here what the verifier and the .avbc reader refuse anyway
+        if stack.len() > MAX_FUNCTION_NESTING {
+            return Err(AssemblerError::ParseError {
+                line: 0,
+                message: format!(
+                    "functions nested deeper than {} levels",
+                    MAX_FUNCTION_NESTING
+                ),
+            });
+        }
         stack.push((func, count.unwrap_or(0)));
         while stack.len() > 1 && stack[stack.len() - 1].1 == 0 {
             let (done, _) = stack.pop().expect("len > 1");
@@ -77,10 +91,10 @@ fn rebuild_hierarchy(functions: Vec<Function>, counts: &[Option<usize>]) -> Func
         let (done, _) = stack.pop().expect("len > 1");
         stack.last_mut().expect("len >= 1").0.nested_functions.push(done);
     }
-    stack
+    Ok(stack
         .pop()
         .map(|(f, _)| f)
-        .unwrap_or_else(|| Function::new(None, 0))
+        .unwrap_or_else(|| Function::new(None, 0)))
 }
 
 /// Parser for .aasm files
@@ -175,7 +189,7 @@ impl<'a> AasmParser<'a> {
         }
 
         if nested_counts.iter().any(|n| n.is_some()) {
-            functions = vec![rebuild_hierarchy(functions, &nested_counts)];
+            functions = vec![rebuild_hierarchy(functions, &nested_counts)?];
         }
 
         let heap = std::mem::take(&mut self.heap);
